@@ -47,6 +47,7 @@ def _sites_of_interest(w, spec):
             label = "call:" + f.attr
             cm = S.module("c_parser").methods("CParser").get(f.attr)
             names = _positional(n, [a.arg for a in cm.args.args[1:]]) if cm is not None else None
+            n._callee_def = cm
         elif isinstance(f, ast.Attribute) and isinstance(f.value, ast.Name) and f.value.id == w.selfname and f.attr.startswith(("_parse_", "_try_parse_")) and (n.args or n.keywords) \
                 and f.attr not in ("_parse_error",):
             # data handed to another production through its parameters (the callee builds nodes from it)
@@ -70,6 +71,15 @@ def _sites_of_interest(w, spec):
             kwmap = getattr(n, "_kwmap", {})
             for k, v in s2.kws.items():
                 fa.setdefault(kwmap.get(k, k), set()).update(v)
+        # a parameter that the call leaves to its (constant) default receives that constant: `f(x)` and `f(x, flag=False)` are the same call
+        cdef = getattr(n, "_callee_def", None)
+        if cdef is not None:
+            pa = cdef.args.args[1:] if (cdef.args.args and cdef.args.args[0].arg == "self") else cdef.args.args
+            dflt = cdef.args.defaults
+            for i, a in enumerate(pa):
+                j = i - (len(pa) - len(dflt))
+                if j >= 0 and f"p{i}" not in fa and isinstance(dflt[j], ast.Constant):
+                    fa[f"p{i}"] = {("const", dflt[j].value)}
         if label == "call:_add_declaration_specifier":
             fa.pop("p0", None)     # the accumulated specifier record itself (threaded through every call)
         rec = {k: _canon_seq(W.simp_set(v)) for k, v in sorted(fa.items())}
